@@ -3,6 +3,7 @@
 package main
 
 import (
+	"encoding/json"
 	"flag"
 	"fmt"
 	"os"
@@ -27,10 +28,14 @@ func main() {
 		mode     = flag.String("mode", "random", "random | memokeys (exhaustive key sequences through a BindMemoized)")
 		dagNodes = flag.Int("dagnodes", 3, "dags: number of MapN nodes")
 		dagMaxH  = flag.Int("dagmaxh", 256, "dags: the graph's MaxHeight")
+		replay   = flag.String("replay", "", "replay the history stored in this replay/corpus file (or every *.json in this directory) and report what the oracles say")
 		length   = flag.Int("len", 5, "memokeys: key sequences up to this length")
 		par      = flag.Int("par", 0, "if > 0: replay every history on a graph driven by ParallelStabilize with this parallelism, compare with the serial run, and record the PARALLEL run for the model")
 	)
 	flag.Parse()
+	if *replay != "" {
+		os.Exit(replayFiles(*replay, *claim, *include))
+	}
 	rep := hx.NewReport("incrtrace/"+*prop, *seed)
 	rng := hx.NewRand(*seed)
 	prof := eng.ProfileFor(*prop)
@@ -100,7 +105,8 @@ func main() {
 				coq[j] = o.Coq()
 			}
 			rep.AddViolation(hx.Violation{Property: *claim, What: what, Key: "engine:" + sig + ":" + strings.Join(strs, ";"),
-				Replay: map[string]any{"max_height": prof.MaxHeight, "ops": strs, "ops_gallina": coq, "kind": f.Kind, "history_index": i, "seed": *seed}})
+				Replay: map[string]any{"max_height": prof.MaxHeight, "ops": strs, "ops_gallina": coq, "ops_json": small, "kind": f.Kind,
+					"history_index": i, "seed": *seed, "parallelism": *par}})
 		}
 		rep.Evaluations++
 		strs := e.OpStrings()
@@ -190,4 +196,58 @@ func main() {
 	}
 	fmt.Printf("incrtrace %s: %d histories, %d distinct non-trivial, %d violations, %d coq cases, hist=%v\n",
 		*prop, rep.Evaluations, rep.Distinct, len(rep.Violations), rep.CoqCases, rep.Histogram)
+}
+
+// replayFiles re-runs stored histories (field replay.ops_json) with all oracles on.
+func replayFiles(path, claim, include string) int {
+	var files []string
+	if st, err := os.Stat(path); err == nil && st.IsDir() {
+		entries, _ := os.ReadDir(path)
+		for _, en := range entries {
+			if strings.HasSuffix(en.Name(), ".json") {
+				files = append(files, path+"/"+en.Name())
+			}
+		}
+	} else {
+		files = []string{path}
+	}
+	rc := 0
+	for _, f := range files {
+		data, err := os.ReadFile(f)
+		if err != nil {
+			fmt.Println(f, err)
+			continue
+		}
+		var doc struct {
+			Replay struct {
+				MaxHeight   int      `json:"max_height"`
+				Ops         []eng.Op `json:"ops_json"`
+				Parallelism int      `json:"parallelism"`
+			} `json:"replay"`
+		}
+		if err := json.Unmarshal(data, &doc); err != nil || len(doc.Replay.Ops) == 0 {
+			fmt.Printf("%s: no replayable history (ops_json) in this file\n", f)
+			continue
+		}
+		mh := doc.Replay.MaxHeight
+		if mh == 0 {
+			mh = 256
+		}
+		e, mon, ok := eng.Replay(mh, doc.Replay.Ops)
+		findings := mon.Findings
+		if doc.Replay.Parallelism > 0 {
+			_, _, findings = eng.RunTwin(e, doc.Replay.Parallelism)
+		}
+		fmt.Printf("%s: %d operations, well-formed=%v\n", f, len(e.Ops), ok)
+		for j, o := range e.Ops {
+			fmt.Printf("  %2d %-40s %s %v\n", j, o.String(), e.Samples[j].Class, e.Samples[j].Raw)
+		}
+		for _, fd := range findings {
+			fmt.Printf("  FINDING %s:%s %s\n", fd.Prop, fd.Kind, fd.What)
+			if fd.Prop == claim || strings.Contains(","+include+",", ","+fd.Prop+",") || claim == "" {
+				rc = 1
+			}
+		}
+	}
+	return rc
 }
